@@ -73,27 +73,6 @@ func (i *index) removeSortedKey(indexKey string) {
 	i.sortedKeys = i.sortedKeys[:len(i.sortedKeys)-1]
 }
 
-func (i *index) putData(key string, item map[string]*types.Item) error {
-	indexKey, err := i.keySchema.GetKey(i.Table.AttributesDef, item)
-	if err != nil {
-		return err
-	}
-
-	i.set(key, indexKey)
-
-	return nil
-}
-
-func (i *index) updateData(key string, item, oldItem map[string]*types.Item) error {
-	return i.putData(key, item)
-}
-
-func (i *index) delete(key string, item map[string]*types.Item) error {
-	i.set(key, "")
-
-	return nil
-}
-
 func (i *index) lessKey(x, y int) bool {
 	if i.sortedRefs[x][1] < i.sortedRefs[y][1] {
 		return true
